@@ -6,6 +6,8 @@ ID = 'C07'
 COQ_IMPORTS = ['C07_Model']
 GENERATORS = ['gen_codes', 'gen_gcode_json', 'gen_c07_tabs', 'gen_c07_ok']
 LETTERS = 'ACGTRYSWKMBDHVN'
+MODELLED_FUNCS = {'sugar/core/cane.py': ['translate'], 'sugar/data/__init__.py': ['gcode'],
+                  'sugar/core/seq.py': ['BioSeq.translate', 'BioBasket.translate']}
 TABLE_IDS = [1, 2, 3, 4, 5, 6, 9, 10, 11, 12, 13, 14, 15, 16, 21, 22, 23, 24, 25, 26, 27, 28, 29, 30, 31, 32, 33]
 RULE = ('per table: all 3375 IUPAC codons concatenated in chunks (complete=True) so that every codon of every table is translated '
         'on every run; single codons (all 3375 x 27 tables in the thorough tier) and codon pairs over {A,T,G,R,N,-} with the option '
@@ -14,11 +16,11 @@ RULE = ('per table: all 3375 IUPAC codons concatenated in chunks (complete=True)
         'after the last stop; cane.translate, BioSeq.translate and BioBasket.translate; a slice of out-of-domain inputs (foreign '
         'characters, gap=None with gap characters, gap_after=0). non-trivial = distinct case marked by at least one of: gap, '
         'ambiguous codon, stop reached, error raised, non-default option, wrapper')
-TRUSTED = ['modelled rather than verified: sugar.core.cane.translate (cane.py:345-434, warn=False), gcode() table lookup as '
+TRUSTED = ['modelled rather than verified: sugar.core.cane.translate (warn modelled as a no-op), gcode() table lookup as '
            'base-15 codon numbers over the regenerated G_gc_<id> tables, BioSeq/BioBasket.translate wrappers (seq.py:599-608,892-900)',
            'tools/gens/gcode.py + tools/gens/c07.py translators (gc.json -> Coq); CPython dict/set membership, str.replace/count/join',
            'property oracle reads NCBI gc.prt with its own parser and the IUPAC code written by hand (independent of gc.json and of the Coq model)']
-ASSUMPTIONS = ['Python str restricted to Latin-1 code points; astop and gap are single characters; warn=False (warnings are not observable)',
+ASSUMPTIONS = ['Python str restricted to Latin-1 code points; astop and gap are single characters; warnings are not observable (warn=True only adds warnings)',
                'domain (decided by wf_C07 in Coq): residues over ACGTU+IUPAC codes plus the gap character, gap not a nucleotide/amino-acid/astop '
                'symbol, gap_after None or >= 1, table id one of the 27 shipped']
 
@@ -94,8 +96,9 @@ def spec_translate(case, s):
 
 
 # ------------------------------------------------------------------ cases
-def mk(s, tt=1, op=0, complete=False, check_start=None, check_stop=False, final_stop=None, astop='X', gap='-', gap_after=2):
-    return {'op': op, 's': s, 'tt': tt, 'complete': complete, 'check_start': check_start, 'check_stop': check_stop,
+def mk(s, tt=1, op=0, complete=False, check_start=None, check_stop=False, final_stop=None, astop='X', gap='-', gap_after=2,
+       warn=False):
+    return {'op': op, 'warn': warn, 's': s, 'tt': tt, 'complete': complete, 'check_start': check_start, 'check_stop': check_stop,
             'final_stop': final_stop, 'astop': astop, 'gap': gap, 'gap_after': gap_after}
 
 
@@ -106,6 +109,8 @@ def rand_opts(rng, plain=0.15):
          'check_start': rng.choice([None, True, False, False]),
          'check_stop': rng.random() < 0.3,
          'final_stop': rng.choice([None, True, False])}
+    if rng.random() < 0.15:
+        o['warn'] = True         # only adds warnings.warn calls (ignored); the returned value / exception must not change
     r = rng.random()
     if r < 0.25:
         o['astop'] = rng.choice(['*', '?', 'x', 'Z', '#'])
@@ -264,9 +269,15 @@ def gen_cases(rng, tier):
 
 
 # ------------------------------------------------------------------ implementation side
+DEFAULTS = dict(complete=False, check_start=None, check_stop=False, final_stop=None, astop='X', gap='-', gap_after=2, tt=1, warn=False)
+
+
 def kwargs(case):
-    return dict(complete=case['complete'], check_start=case['check_start'], check_stop=case['check_stop'],
-                final_stop=case['final_stop'], astop=case['astop'], gap=case['gap'], gap_after=case['gap_after'], tt=case['tt'])
+    """only the options that differ from the documented defaults are passed, so that the defaults of the signature are exercised"""
+    kw = dict(complete=case['complete'], check_start=case['check_start'], check_stop=case['check_stop'],
+              final_stop=case['final_stop'], astop=case['astop'], gap=case['gap'], gap_after=case['gap_after'], tt=case['tt'],
+              warn=bool(case.get('warn', False)))
+    return {k: v for k, v in kw.items() if v != DEFAULTS[k] or type(v) is not type(DEFAULTS[k])}
 
 
 def impl(case):
@@ -282,14 +293,18 @@ def impl(case):
     if op == 1:
         r = seq.translate(**kw)
         assert r is seq, 'translate must return the receiver'
-    else:
-        other = BioSeq(s, type='nt')
-        b = BioBasket([seq, other])
+        return [seq.data, seq.type]
+    # op 2: state of the basket after the call, also when it raises (in-place semantics)
+    other = BioSeq(s[3:], type='nt')
+    b = BioBasket([seq, other])
+    err = None
+    try:
         r = b.translate(**kw)
-        assert r is b and b[0] is seq and b[1] is other
-        assert other.data == seq.data and other.type == 'aa', 'every sequence of the basket is translated'
-    assert seq.type == 'aa', 'type must become aa'
-    return seq.data
+        assert r is b, 'translate must return the receiver'
+    except ValueError:
+        err = 'ValueError'
+    assert len(b) == 2 and b[0] is seq and b[1] is other
+    return [err, [[seq.data, seq.type], [other.data, other.type]]]
 
 
 def coq_byte(ch):
@@ -308,33 +323,85 @@ def split_model(case, m):
 
 
 def agree(case, implval, modelval):
-    if isinstance(implval, dict) and case['op'] == 2 and implval.get('e') == 'ValueError':
-        return implval == modelval
     return implval == modelval
+
+
+def check_one(case, s, got):
+    """got: translated str or 'ValueError' for input s (already upper-cased for the wrappers)."""
+    exp = spec_translate(case, s)
+    if got == 'ValueError' or exp == 'ValueError':
+        return None if got == exp else 'got %r, expected %r' % (got, exp)
+    g = case['gap']
+    dg = got.replace(g, '') if g is not None else got
+    if dg != exp:
+        return 'degapped output %r, expected %r' % (dg, exp)
+    if g is not None:
+        # first principles for the NUMBER of gap symbols: one after the first gap_after gap characters, then one per three;
+        # exactly that many when the run is not cut short by a stop codon, never more
+        d = s.replace('U', 'T')
+        ngaps, ga = d.count(g), case['gap_after']
+        most = 0 if (ga is None or ngaps < ga) else (ngaps - ga) // 3 + 1
+        if ga is None or ga >= 1:
+            dd = d.replace(g, '')
+            nostop = not any(codon_info(case['tt'], dd[i:i + 3])[1] for i in range(0, len(dd) - 2, 3))
+            if got.count(g) > most or (nostop and got.count(g) != most):
+                return '%d gap symbols in %r, expected %s%d' % (got.count(g), got, '' if nostop else 'at most ', most)
+    return None
 
 
 def spec(case, got):
     """Property-level oracle (NCBI gc.prt + IUPAC), independent of sugar's loop, of gc.json and of the Coq model."""
     if case['tt'] not in prt_tables():
         return None
-    s = case['s'].upper() if case['op'] else case['s']
-    exp = spec_translate(case, s)
+    op = case['op']
+    if op == 0:
+        if isinstance(got, dict):
+            return check_one(case, case['s'], 'ValueError') if got.get('e') == 'ValueError' else 'raised %s' % got.get('e')
+        return check_one(case, case['s'], got)
+    s = case['s'].upper()
+    if op == 1:
+        if isinstance(got, dict):
+            return check_one(case, s, 'ValueError') if got.get('e') == 'ValueError' else 'raised %s' % got.get('e')
+        if got[1] != 'aa':
+            return 'type is %r after translate' % (got[1],)
+        return check_one(case, s, got[0])
     if isinstance(got, dict):
-        if exp != 'ValueError' or got.get('e') != 'ValueError':
-            return 'raised %s, expected %r' % (got.get('e'), exp)
-        return None
-    if exp == 'ValueError':
-        return 'expected ValueError, got %r' % got
-    g = case['gap']
-    dg = got.replace(g, '') if g is not None else got
-    if dg != exp:
-        return 'degapped output %r, expected %r' % (dg, exp)
-    if g is not None and g not in s and got != exp:
-        return 'gap symbol in the translation of a gap-free input: %r' % got
+        return 'raised %s' % got.get('e')
+    err, seqs = got
+    inputs = [s, s[3:]]
+    failed = False
+    for inp, (data, typ) in zip(inputs, seqs):
+        if failed:
+            if [data, typ] != [inp, 'nt']:
+                return 'sequence after the failing one was changed: %r' % ([data, typ],)
+            continue
+        exp = spec_translate(case, inp)
+        if exp == 'ValueError':
+            failed = True
+            if [data, typ] != [inp, 'nt']:
+                return 'failing sequence was changed: %r' % ([data, typ],)
+            continue
+        if typ != 'aa':
+            return 'type is %r after translate' % (typ,)
+        r = check_one(case, inp, data)
+        if r:
+            return r
+    if failed != (err == 'ValueError'):
+        return 'basket raised %r, expected failure %r' % (err, failed)
     return None
 
 
+def flat(case, got):
+    """main observable: the (first) translated string, or the error dict"""
+    if isinstance(got, dict) or case['op'] == 0:
+        return got
+    if case['op'] == 1:
+        return got[0]
+    return {'e': got[0]} if got[0] else got[1][0][0]
+
+
 def markers(case, got):
+    got = flat(case, got)
     s = case['s']
     m = []
     g = case['gap']
@@ -360,6 +427,8 @@ def markers(case, got):
         m.append('raises')
     elif got and (('*' in got) or (case['astop'] in got)):
         m.append('stop-symbol')
+    if case.get('warn'):
+        m.append('warn')
     for k, dflt in (('complete', False), ('check_start', None), ('check_stop', False), ('final_stop', None), ('astop', 'X'),
                     ('gap', '-'), ('gap_after', 2)):
         if case[k] != dflt:
@@ -374,12 +443,13 @@ def nontrivial(case, got):
     return m or None
 
 
-def histkey(case, got):
+def histkey(case, got0):
+    got = flat(case, got0)
     n = len(case['s'])
     ks = ['op=%d' % case['op'], 'tt=%d' % case['tt'],
           'len=' + ('0' if n == 0 else '1-3' if n <= 3 else '4-6' if n <= 6 else '7-99' if n < 100 else '100-999' if n < 1000 else '1000+'),
           'result=' + (got.get('e', '?') if isinstance(got, dict) else 'str')]
-    ks += ['mark=' + x for x in markers(case, got) if x in ('gap', 'gap-in-codon', 'gap-trailing', 'ambiguous', 'rna', 'stop-symbol')]
+    ks += ['mark=' + x for x in markers(case, got0) if x in ('gap', 'gap-in-codon', 'gap-trailing', 'ambiguous', 'rna', 'stop-symbol')]
     for k in ('complete', 'check_start', 'check_stop', 'final_stop', 'gap_after'):
         ks.append('%s=%s' % (k, case[k]))
     return ks
@@ -394,17 +464,32 @@ def python_snippet(case):
     if case['op'] == 0:
         return 'from sugar.core.cane import translate; print(repr(translate(%r, %s)))' % (case['s'], kw)
     if case['op'] == 1:
-        return "from sugar import BioSeq; print(repr(BioSeq(%r, type='nt').translate(%s).data))" % (case['s'], kw)
-    return "from sugar import BioSeq, BioBasket; print(repr(BioBasket([BioSeq(%r, type='nt')]).translate(%s)[0].data))" % (case['s'], kw)
+        return "from sugar import BioSeq; q=BioSeq(%r, type='nt').translate(%s); print([q.data, q.type])" % (case['s'], kw)
+    return ("from sugar import BioSeq, BioBasket; b=BioBasket([BioSeq(%r, type='nt'), BioSeq(%r, type='nt')])\n"
+            "try: b.translate(%s)\nexcept ValueError as e: print('ValueError', e)\nprint([[q.data, q.type] for q in b])" % (case['s'], case['s'][3:], kw))
 
 
-LEVEL_TEXT = ('Machine-checked Coq theorems about a Gallina model of translate() over the 27 regenerated tables: on gap-free input the '
-              'loop equals the codon-level specification (codon-by-codon table symbol, stop at the first stop codon unless complete, '
-              'final_stop only decides the terminal stop symbol, check_start/check_stop raise exactly when stated); degapping the output '
-              'equals translating the degapped input for every input and option; T/U equivalence; per table and for all 3375 IUPAC codons '
-              'the emitted symbol is the shared amino acid / astop / X of the expansions (finite theorem re-checked against gc.json on '
-              'every run). The model is tied to sugar by differential testing on every run, with an independent NCBI gc.prt oracle.')
+LEVEL_TEXT = ('Machine-checked Coq theorems (22, no axioms) about a Gallina model of translate() over the 27 regenerated tables. '
+              'PROVED for every string, table and option record: on gap-free input the loop equals the codon-level specification '
+              '(codon by codon the table symbol, stop at the first stop codon unless complete, check_start / check_stop raise exactly '
+              'when the first codon cannot start / the first stop codon is missing or not the last complete codon); final_stop changes '
+              'only the terminal stop symbol (C07_final_stop_only); T/U equivalence; for every input the loop equals the specification '
+              'with gap symbols placed by marks (C07_gap_placement: the g-th gap character writes a symbol iff g = gap_after + 3j, before '
+              'the symbol of the codon being read), their number is ecount (0 below gap_after, then one per three; exact when the run is '
+              'not cut short), and removing them gives the translation of the degapped input (errors included); BioSeq.translate sets '
+              'data and type aa, BioBasket.translate maps it in place and stops at the first failing sequence. PROVED BY COMPLETE '
+              'ENUMERATION over the regenerated gc.json (27 tables x 3375 IUPAC codons, re-checked on every run): the symbol is the table '
+              'entry / astop if some expansion is a stop / the shared amino acid / X; stop codons are unambiguous; a codon can start iff '
+              'an expansion is a start codon; every bundled id resolves to such a table. TESTED ONLY (differential correspondence with '
+              'the real code on every run plus an independent NCBI gc.prt oracle): that the model is what cane.translate / gcode / the '
+              'wrappers do, object identity (returns the receiver, in place), the defaults of the signature, independence of warn, the '
+              'exception class, KeyError for unknown table ids.')
 LEVEL_NOTE = ('Trusted: Coq kernel/vm_compute, translators tools/gens/gcode.py and c07.py, the correspondence harness, CPython str/dict/set. '
-              'Modelled rather than verified: cane.translate with warn=False, gcode() lookup, BioSeq/BioBasket.translate. astop and gap '
-              'single Latin-1 characters. All theorems closed under the global context (no axioms).')
+              'Modelled rather than verified: cane.translate (warn only adds warnings and is modelled as a no-op; cases with warn=True '
+              'are compared on the returned value / exception), gcode() lookup, BioSeq.__init__ upper(), BioSeq/BioBasket.translate. astop '
+              'and gap are single Latin-1 characters. Measured statement coverage of the modelled functions in the quick tier: gcode 12/12, '
+              'BioSeq.translate 5/5, BioBasket.translate 4/4, translate 59/61; the two missing statements (the body of '
+              '"elif warn and codon in gc.astops" in the for/else clause, cane.py:456-457) are unreachable: the left-over codon has fewer '
+              'than three letters and astops holds three-letter codons only (Coq: short_not_in_set). All theorems closed under the global '
+              'context (no axioms).')
 TECHNIQUE = 'Coq proof over an executable model + regenerated tables + differential correspondence'
